@@ -382,7 +382,8 @@ impl Ord for Iri {
 
 impl Hash for Iri {
 	fn hash<H: hash::Hasher>(&self, state: &mut H) {
-		self.parts().hash(state)
+		// Same hash as the reference it can be borrowed as.
+		self.as_iri_ref().hash(state)
 	}
 }
 
